@@ -14,10 +14,10 @@ import (
 // Listed findings (see /verif/known_findings.d/C15.txt). While a key is listed
 // as "known" the generators leave out exactly the input class that triggers it.
 const (
-	keyFreeCapacity    = "C15-move-ignores-free-capacity"          // volume.balance / volumeServer.evacuate never look at the target's free slots
-	keyExistingReplica = "C15-move-onto-existing-replica"          // setting 000: move onto a server holding a replica of another writability class
-	keyFixCapacity     = "C15-fixrepl-capacity-not-updated"        // fix.replication never counts the copies it already planned
-	keySplitRacks      = "C15-isgoodmove-splits-racks-over-dcs"    // isGoodMove counts racks over all data centers (120 -> 2+2)
+	keyFreeCapacity    = "C15-move-ignores-free-capacity"       // volume.balance / volumeServer.evacuate never look at the target's free slots
+	keyExistingReplica = "C15-move-onto-existing-replica"       // setting 000: move onto a server holding a replica of another writability class
+	keyFixCapacity     = "C15-fixrepl-capacity-not-updated"     // fix.replication never counts the copies it already planned
+	keySplitRacks      = "C15-isgoodmove-splits-racks-over-dcs" // isGoodMove counts racks over all data centers (120 -> 2+2)
 )
 
 func (s *snapshot) counts() []map[string]int {
